@@ -117,10 +117,13 @@ class Dispatcher(InstructionGenerator):
 
             return instructions
 
+        # fleets are visited in sorted order: iterating the frozenset directly makes the instruction
+        # order (and with it the outcome for vehicles in several fleets) depend on the string hash seed
+        fleet_ids: Tuple[Optional[MembershipId], ...]
         if len(environment.fleet_ids) > 0:
-            fleet_ids = environment.fleet_ids
+            fleet_ids = tuple(sorted(environment.fleet_ids))
         else:
-            fleet_ids = frozenset([None])
+            fleet_ids = (None,)
 
         initial_instructions: Tuple[DispatchTripInstruction, ...] = tuple()
 
